@@ -225,6 +225,14 @@ impl Lexer {
                     self.after_where = true;
                     Some(Lexem::Order)
                 }
+                "group" => {
+                    // GROUP BY keys may be arithmetic expressions, exactly as in WHERE
+                    // (a search root may be called `group` too)
+                    if !self.possible_search_root {
+                        self.after_where = true;
+                    }
+                    Some(Lexem::RawString(s))
+                }
                 "by" => Some(Lexem::By),
                 "asc" => self.next_lexem(),
                 "desc" => Some(Lexem::DescendingOrder),
